@@ -49,6 +49,8 @@ type concurrentBlocks interface {
 // machine (0 = the pure Go cipher without the batch interface). A mismatch
 // means the override did not take effect (or the CPU lacks the feature): the
 // run is then a harness error (inconclusive), never counted as coverage.
+// (no entry for "avxoff": AVX off with AVX2 on is not a real CPU; the batch width the
+// library announces there is not asserted, only that all results are right)
 var wantConc = map[string]int{"default": 8, "aesni1": 8, "noavx2": 4, "noavx": 4, "noaes": 0, "purego": 0}
 
 var dispatchOnce sync.Once
